@@ -86,6 +86,9 @@ def broadcast(self, other):
     for newaxis in reversed(newaxes):  # should be faster ( CHECK ) 
         if newobj.axes[newaxis.name].size == 1 and newaxis.size != 1:
             newobj = newobj.repeat(newaxis.values, axis=newaxis.name)
+        elif newaxis.size == 1 and newobj.axes[newaxis.name].values[0] is None:
+            # new dimension with a single label: take that label (instead of the placeholder None)
+            newobj.axes[newaxis.name] = Axis(newaxis.values.copy(), newaxis.name)
 
     return newobj
 
